@@ -83,6 +83,19 @@ PROPS["C18"] = {
     "assumptions": COMMON_ASSUME + ["logical interference that needs a preemption between two non-seam instructions of one request is out of reach (data races there are still reported)", "tasks are serialised by fake-time sleeps only, which create no happens-before edge for the race detector (measured per batch by the calibration probe)", "mode N (real net/http over simulated connections) is not built; the RoundTripper contract is modelled by the stub"],
 }
 
+DAV_REAL = {
+    "real": ["caldav.Handler, carddav.Handler, webdav.Handler, webdav.ServePrincipal and every decoder behind them (encoding/xml structs, go-ical, go-vcard)", "net/http request parsing (http.ReadRequest) and httptest.ResponseRecorder", "LocalFileSystem on tmpfs for the webdav-local server"],
+    "stub": ["the wire (requests parsed from bytes and handed to ServeHTTP in-process)", "storage: recording in-memory caldav.Backend / carddav.Backend / webdav.FileSystem doubles that fail the j-th call of a request on demand"],
+}
+PROPS["C13"] = {
+    "engine": "wdsim", "level": "fault_enumeration",
+    "quick": {"max_runs": 100000000, "budget_s": 40, "recheck": 25},
+    "thorough": {"max_runs": 1000000000, "budget_s": 900, "recheck": 50},
+    "rule": "one evaluation = one seeded run against one of five servers (caldav, carddav, file server on the in-memory store, file server on LocalFileSystem, principal helper) under a seeded mount prefix: 3-12 valid exchanges (PROPFIND all depths and levels, PROPPATCH, MKCOL with and without body, REPORT calendar-query / calendar-multiget / addressbook-query / addressbook-multiget, PUT of iCalendar / vCard / files, GET/HEAD/DELETE/OPTIONS/COPY/MOVE), each of which may meet one fault: the request stream cut at a seeded, structural or (profile dav-every-offset) EVERY offset with a clean EOF or a read error / cancellation under several chunkings; the j-th backend call failing with an HTTP status error, a precondition error, a plain error or context.Canceled; the j-th disk call failing with an errno; an invalid Depth/Overwrite/Destination value; or replacement by one of 39 hand-written malformed documents (mutually exclusive elements, invalid enumeration values, dates, limits, wrong roots, unparseable bodies, invalid Content-Type). Oracle: no panic, complete response (a 207 parses), malformed -> 4xx (never 2xx/5xx) and no create/update/delete call recorded by the backend. Non-trivial and distinct = distinct (server, method, template, fault class) where the fault fired; cut positions bucketed in tenths of the document.",
+    "real_vs_stub": DAV_REAL,
+    "assumptions": COMMON_ASSUME + ["partial: structure-aware mutation of documents (element deletion/duplication/renaming, namespace swaps, attribute corruption, random bytes) is input-space search outside this technique; only stream cuts, dependency faults, header value sets and a fixed list of malformed documents are decided", "how a backend failure maps to a status is not part of the statement: counted, not judged"],
+}
+
 MANIFEST_TEXT = {
     "C01": {
         "technique": "deterministic simulation: seeded multi-client request histories against the real handler and LocalFileSystem on a simulated disk seam, refinement-checked step by step against an executable RFC 4918 resource-tree model",
@@ -119,6 +132,12 @@ MANIFEST_TEXT = {
         "level_text": "Seeded exploration over schedules and fault sequences. Interleavings are chosen by the PRNG, not the Go scheduler, so a failure replays; 'never hangs' is decidable because a bubble deadlock is an event; the race detector still sees the tasks as unordered (calibrated every run).",
         "design_ref": "DESIGN.md section 3 / C18",
         "level_note": "Trusted: the stub transport's reading of the RoundTripper contract. Preemption is only controlled at seams. Race reports are detected once per process and replayed in fresh processes.",
+    },
+    "C13": {
+        "technique": "deterministic simulation with fault injection: request-stream cuts at seeded, structural and every offset (clean EOF, read error, cancellation), failing backend/disk calls at every ordinal reached, invalid header values and a fixed list of malformed documents against the real CalDAV/CardDAV/WebDAV/principal handlers over recording backend doubles",
+        "level_text": "Fault enumeration over the stream and dependency seams of every body-carrying request kind; every-offset enumeration for documents up to 2 KiB. Partial by design: arbitrary structure-aware mutation of documents is not a schedule or a fault and is not claimed.",
+        "design_ref": "DESIGN.md section 3 / C13",
+        "level_note": "Trusted: the backend doubles; 'document end' offsets of the templates. The C04 clause about conditional headers reaching CalDAV/CardDAV backends unaltered is checked on the same exchanges (profile dav-passthrough of C04).",
     },
     "C17": {
         "technique": "deterministic simulation: every response of seeded histories, including histories with OS error kinds injected at the disk seam, scanned for the host path",
